@@ -63,6 +63,16 @@ def check(model, o, feeds_list, expected=None):
     info["changed"] = optcommon.folded_or_rewritten(model, new)
     src = compare.Source(model)
     v, d = compare.decide(src, new, feeds_list)
+    if v.startswith("violation"):
+        # an input (e.g. a run-time Reshape target fed as a graph input) may make the SOURCE produce shapes that contradict the static
+        # shapes the model itself declares (value_info / outputs): such an input is outside the model's contract - transformations may
+        # rely on declared shapes (same rule as C04's override tuples and C09's bindings); the verdict is taken on the remaining inputs
+        from vf.props.C04 import _respects_declared_shapes
+
+        kept = [f for f in feeds_list if _respects_declared_shapes(src, model, f)]
+        if len(kept) != len(feeds_list):
+            info["feeds_contradicting_declared_shapes"] = len(feeds_list) - len(kept)
+            v, d = compare.decide(src, new, kept) if kept else ("skip_source_fails", "every input contradicts the declared shapes")
     info["verdict"] = v
     if v.startswith("violation"):
         ortonly = ":single-runtime" if ("ref: None" in d or "ort: None" in d) else ""
